@@ -198,6 +198,10 @@ def _translate_metadata_to_ds9(region, shape):
     if fill is not None:
         meta['fill'] = int(fill)
 
+    # DS9 wants include=0/1; "include=False" would be ignored when read back
+    if meta.get('include') is not None:
+        meta['include'] = int(meta['include'])
+
     if 'text' in meta:
         meta['text'] = f'{{{meta["text"]}}}'
 
